@@ -122,4 +122,42 @@ def _option_histories():
     return OptionHistories()
 
 
-FAMILIES = [Failures(), SeveralPerFile(), _one_file_two_names(), _option_histories()]
+class OptionsLeftOut(object):
+    case_timeout = 10
+    name = 'options-left-out-of-the-call'
+    describe = ('A imports B, B absent or unparsable; no borrower, or one built for modules without / with texts that holds B (or A); '
+                'every subset of the six options switched away from its default and the other options NOT named in the call at all '
+                '(an option left out means its default): same statuses, same writes as the reference model gives for the explicit call')
+
+    def blocks(self, tier):
+        return [{'fail': f, 'bor': b} for f in ('notfound', 'synerr') for b in (None, 'plain-B', 'texts-B', 'texts-A', 'both-B')]
+
+    def cases(self, block, tier):
+        keys = ['noDeps', 'rebuild', 'dryRun', 'writeMibs', 'ignoreErrors', 'genTexts']
+        for bits in itertools.product([0, 1], repeat=6):
+            o = dict((k, (not b) if k == 'writeMibs' else bool(b)) for k, b in zip(keys, bits) if b)
+            for req in (['A'], ['A', 'B'], ['B']):
+                w = {'n': 2, 'edges': [['A', 'B']], 'used': 0, 'req': req, 'implicit': 1}
+                if block['fail'] == 'notfound':
+                    w['src'] = {'B0': 'notfound'}
+                else:
+                    w['text'] = {'B': 'synerr'}
+                if block['bor'] == 'plain-B':
+                    w['borrowers'] = [{'texts': False, 'ans': {'B': 'has'}}]
+                elif block['bor'] == 'texts-B':
+                    w['borrowers'] = [{'texts': True, 'ans': {'B': 'has'}}]
+                elif block['bor'] == 'texts-A':
+                    w['borrowers'] = [{'texts': True, 'ans': {'A': 'has'}}]
+                elif block['bor'] == 'both-B':
+                    w['borrowers'] = [{'texts': True, 'ans': {'B': 'has'}}, {'texts': False, 'ans': {'B': 'has'}}]
+                if o:
+                    w['opts'] = o
+                yield w
+
+    def run_case(self, case):
+        obs = H.run_world(case)
+        vs = H.judge(case, obs, 'C09|options-left-out')
+        return H.observation_key(obs), vs, len(obs['log'])
+
+
+FAMILIES = [Failures(), SeveralPerFile(), _one_file_two_names(), _option_histories(), OptionsLeftOut()]
